@@ -64,6 +64,15 @@ func main() {
 		}
 		return
 	}
+	if *prop == "all" {
+		// dev-time mode (self-test): one load, every property in turn; evidence and
+		// reports are written per property as usual.  Quick tier only.
+		abs, err := filepath.Abs(*repo)
+		if err == nil {
+			*repo = abs
+		}
+		os.Exit(runAll(*repo, *verif, seed))
+	}
 	p, ok := rules.Registry[*prop]
 	if !ok {
 		fmt.Fprintf(os.Stderr, "unknown property %q\n", *prop)
@@ -118,4 +127,48 @@ func run(p *rules.Property, repo, tier, verif string, seed int) int {
 		}
 	}
 	return c.Finish(verif, seed, p.Explanation, p.Assumptions, cmdline)
+}
+
+// runAll loads the repository once and runs every property's rules on the
+// shared program (the registered commands never use it: they run one property
+// per process).
+func runAll(repo, verif string, seed int) int {
+	known, kerr := core.LoadKnown(filepath.Join(verif, "known_findings.txt"))
+	ids := make([]string, 0)
+	for id := range rules.Registry {
+		ids = append(ids, id)
+	}
+	sort.Strings(ids)
+	c, err := core.Load(repo, "quick", false)
+	if err != nil {
+		fmt.Println("load:", err)
+		for _, id := range ids {
+			fmt.Printf("== %s: exit 1\n", id)
+		}
+		return 1
+	}
+	worst := 0
+	for _, id := range ids {
+		p := rules.Registry[id]
+		c.ResetFor(id)
+		if kerr != nil {
+			c.Undecided("load", "known_findings.txt", 0, kerr.Error())
+		}
+		c.Known = append([]core.KnownFinding(nil), known...)
+		func() {
+			defer func() {
+				if r := recover(); r != nil {
+					c.Undecided("panic", "analyser", 0, fmt.Sprintf("%v\n%s", r, debug.Stack()))
+				}
+			}()
+			p.Run(c)
+			c.EvalWitnesses()
+		}()
+		code := c.Finish(verif, seed, p.Explanation, p.Assumptions, "qicheck -property all ("+id+")")
+		fmt.Printf("== %s: exit %d\n", id, code)
+		if code > worst {
+			worst = code
+		}
+	}
+	return worst
 }
